@@ -23,7 +23,7 @@ for d in $DEMOS; do
   dir=$(grep -rl --include=*.go "^package $pkg\$" src | grep -v _test.go | head -1 | xargs dirname)
   n=$(basename $(dirname $d))_$(basename $d); cp $d $dir/zz_seed_$n ; cp $d $OUT/$n ; echo "$dir/zz_seed_$n" >> $OUT/demo_files.txt
 done
-demo_run() { ( cd src && go test -vet=off -count=1 -timeout 300s -run 'Seed' ./... 2>&1 | grep -v "no test files" | tail -15 ); }
+demo_run() { ( cd src && go test -vet=off -count=1 -timeout 300s -run 'TestSeed' ./... 2>&1 | grep -v "no test files" | tail -15 ); }
 # 1. demo without the change
 A=$(demo_run); echo "$A" | grep -q "^FAIL\|--- FAIL" && WITHOUT=fail || WITHOUT=pass
 res "demo without change: $WITHOUT"
